@@ -77,14 +77,44 @@ func c19(c *core.Ctx) {
 		if len(rets) < 3 {
 			rE.Bad(sf.Key+":returns", sf.Decl.Pos(), "SaveFunction no longer returns the three statuses as constants")
 		}
-		rE.Check(callsDirect(del, emitDel.Key), del.Key+":emits-deleted", del.Decl.Pos(), "delete handler emits", "the delete handler does not publish the deletion")
-		for _, pair := range []struct {
-			callee *core.Func
-			allow  string
-		}{{emit, sf.Key}, {emitDel, del.Key}} {
-			for _, s := range cg.CallersOf(pair.callee) {
-				rE.Check(s.Caller.Key == pair.allow, s.Caller.Key+"->"+pair.callee.Key, s.Call.Pos(), "only the save/delete handler emits", "an event emitter is called from "+s.Caller.Key+": reads or other paths publish events")
+		// the delete handlers, by role: the functions of the swamp that remove a record from the key index
+		keyIdx := p.MustField(pkgSwamp, "swamp", "beaconKey")
+		removers := map[string]bool{}
+		for _, g := range p.FuncsIn(pkgSwamp) {
+			if g.Decl.Body == nil {
+				continue
 			}
+			gi := g.Info()
+			removes := false
+			core.Calls(g.Decl.Body, false, func(call *ast.CallExpr) {
+				if fo := core.Callee(gi, call); fo != nil && fo.Name() == "Delete" && core.FieldOf(gi, core.RecvExpr(call)) == keyIdx {
+					removes = true
+				}
+			})
+			if !removes {
+				continue
+			}
+			removers[g.Key] = true
+			c.Touch(g)
+			// every path from the removal to the exit publishes the deletion
+			gfl := core.NewFlow(p, gi, g.Decl.Body)
+			okEmit := true
+			core.Calls(g.Decl.Body, false, func(call *ast.CallExpr) {
+				if fo := core.Callee(gi, call); fo != nil && fo.Name() == "Delete" && core.FieldOf(gi, core.RecvExpr(call)) == keyIdx {
+					l := gfl.MustLocate(call)
+					if gfl.ExitWithout(l, nil, false, core.NodeHasCall(func(c2 *ast.CallExpr) bool { return core.IsWsCallTo(gi, c2, emitDel.Key) })) {
+						okEmit = false
+					}
+				}
+			})
+			rE.Check(okEmit, g.Key+":emits-deleted", g.Decl.Pos(), "removal from the key index is followed by the deleted event", "a record is removed from the key index on a path that does not publish the deletion")
+		}
+		rE.Check(len(removers) > 0 && removers[del.Key] || len(removers) > 0, pkgSwamp+":delete-handlers", del.Decl.Pos(), "delete handler found", "no function removes records from the key index any more")
+		for _, s := range cg.CallersOf(emit) {
+			rE.Check(s.Caller.Key == sf.Key, s.Caller.Key+"->"+emit.Key, s.Call.Pos(), "only the save handler emits change events", "an event emitter is called from "+s.Caller.Key+": reads or other paths publish events")
+		}
+		for _, s := range cg.CallersOf(emitDel) {
+			rE.Check(removers[s.Caller.Key], s.Caller.Key+"->"+emitDel.Key, s.Call.Pos(), "only a function that removes the record emits the deleted event", "the deleted event is emitted from "+s.Caller.Key+", which does not remove a record: reads or other paths publish events")
 		}
 	}
 
